@@ -40,3 +40,15 @@ func VerifPointerDecode(data []byte) (AddressPayloadPointer, int, error) {
 func VerifCborArrayInfo(data []byte) (int, uint32, bool) { return cborArrayInfo(data) }
 func VerifCborMapInfo(data []byte) (int, uint32, bool)   { return cborMapInfo(data) }
 func VerifCborArrayHeaderSize(n int) uint32              { return cborArrayHeaderSize(n) }
+
+// VerifDistributePoolRewards exposes distributePoolRewards.
+func VerifDistributePoolRewards(total uint64, delegatorStake map[AddrKeyHash]uint64, pp *PoolRegistrationCertificate, snap RewardSnapshot) *PoolRewards {
+	return distributePoolRewards(PoolKeyHash{}, total, delegatorStake, pp, snap)
+}
+
+// VerifStubDistribute is the contract of distributePoolRewards used when the pool totals are
+// under test: some split of exactly the given total (harness PoolSplit checks the real
+// function against this for an arbitrary total).
+func VerifStubDistribute(_ PoolKeyHash, total uint64, _ map[AddrKeyHash]uint64, _ *PoolRegistrationCertificate, _ RewardSnapshot) *PoolRewards {
+	return &PoolRewards{OperatorRewards: total, DelegatorRewards: map[AddrKeyHash]uint64{}, TotalRewards: total}
+}
